@@ -186,18 +186,22 @@ impl Man {
     }
 
     fn _render_title(&self, roff: &mut Roff) {
-        roff.control("TH", self.title_args());
+        let args = self.title_args();
+        roff.control("TH", args.iter().map(|s| s.as_str()));
     }
 
     // Turn metadata into arguments for a .TH macro.
-    fn title_args(&self) -> Vec<&str> {
-        vec![
+    fn title_args(&self) -> Vec<String> {
+        [
             &self.title,
             &self.section,
             &self.date,
             &self.source,
             &self.manual,
         ]
+        .into_iter()
+        .map(|s| control_arg(s))
+        .collect()
     }
 
     /// Render the NAME section into the writer.
@@ -274,7 +278,7 @@ impl Man {
                 .into_iter()
                 .partition(|&a| a.get_help_heading() == Some(heading));
 
-            roff.control("SH", [heading.to_uppercase().as_str()]);
+            roff.control("SH", [control_arg(&heading.to_uppercase()).as_str()]);
             render::options(roff, &args);
         }
     }
@@ -287,8 +291,8 @@ impl Man {
     }
 
     fn _render_subcommands_section(&self, roff: &mut Roff) {
-        let heading = subcommand_heading(&self.cmd);
-        roff.control("SH", [heading]);
+        let heading = control_arg(subcommand_heading(&self.cmd));
+        roff.control("SH", [heading.as_str()]);
         render::subcommands(roff, &self.cmd, &self.section);
     }
 
@@ -329,6 +333,12 @@ impl Man {
         roff.control("SH", ["AUTHORS"]);
         roff.text([author]);
     }
+}
+
+// The arguments of a control line must stay on that line: a newline in user text (version, help
+// heading, ...) would otherwise start a new input line that roff reads as a request.
+fn control_arg(s: &str) -> String {
+    s.replace(['\r', '\n'], " ")
 }
 
 // Does the application have a version?
